@@ -111,13 +111,19 @@ type c06hCase struct {
 	Sender string         `json:"packet_sender_id,omitempty"`
 	Recv   string         `json:"packet_receiver_id,omitempty"`
 	Class  string         `json:"class"`
+	// Reauth != "": the activating connection first authenticated as a brand-new client P,
+	// issued this command under that identity ("none" = no command), then re-authenticated
+	// (second handshake on the same connection) as the activator
+	Reauth  string `json:"reauth_history,omitempty"`
+	CloseY  bool   `json:"activators_first_connection_closed,omitempty"`
+	PriorID int64  `json:"earlier_identity,omitempty"`
 }
 
 func TestVerifC06Handler(t *testing.T) {
 	vk.Quiet()
 	run := vk.Start(t, "C06", "handler")
 	defer run.Finish()
-	run.Rule("real command handlers over authenticated mini-server connections: T generates a code (unique target address), A sends ConnectionCodeActivate whose JSON body carries one identity-like extra member (10 names x 7 values: id of another connected client V as number/string, id of T, an unregistered id, 0, -1, 2^53+1) or a seeded combination of several, optionally with forged SenderId/ReceiverId; afterwards V tries the same code; store audit after every command; distinct = (member name, value class, forged packet ids)")
+	run.Rule("real command handlers over authenticated mini-server connections: T generates a code (unique target address), A sends ConnectionCodeActivate whose JSON body carries one identity-like extra member (10 names x 7 values: id of another connected client V as number/string, id of T, an unregistered id, 0, -1, 2^53+1) or a seeded combination of several, optionally with forged SenderId/ReceiverId; also histories in which the activating connection first issued list/generate/activate commands as a brand-new client P and then re-authenticated (second handshake on the same connection) as the activator, whose first connection is open or closed; afterwards V tries the same code; store audit after every command; distinct = (member name, value class, forged packet ids)")
 	names := []string{"listen_client_id", "client_id", "ListenClientID", "listenClientId", "target_client_id", "user_id", "activated_by", "sender_id", "from_client_id", "target_address"}
 	var w *c06hWorld
 	inWorld := 0
@@ -163,6 +169,14 @@ func TestVerifC06Handler(t *testing.T) {
 	}
 	cases = append(cases, c06hCase{Fields: map[string]any{}, Class: "documented-body"}, c06hCase{Fields: map[string]any{}, Sender: "victim", Recv: "target", Class: "forged-packet-ids"})
 
+	for _, prior := range []string{"list", "generate", "activate-unknown-code", "none"} {
+		for _, closeY := range []bool{false, true} {
+			for _, extra := range []map[string]any{{}, {"listen_client_id": "victim-num"}} {
+				cases = append(cases, c06hCase{Fields: extra, Class: "reauth=" + prior, Reauth: prior, CloseY: closeY})
+			}
+		}
+	}
+
 	for ci, cs := range cases {
 		if inWorld >= 30 { // stay below the per-client quotas (10 active codes, 50 mappings)
 			fresh()
@@ -195,20 +209,52 @@ func TestVerifC06Handler(t *testing.T) {
 		if cs.Sender != "" {
 			sender, recv = strconv.FormatInt(w.V.ClientID, 10), strconv.FormatInt(w.T.ClientID, 10)
 		}
-		act, ok := w.command(w.A, packet.ConnectionCodeActivate, string(bj), sender, recv)
+		actor, actorID, victimID := w.A, w.A.ClientID, w.V.ClientID
+		if cs.Reauth != "" {
+			y := w.n.NewClient("") // the activator's identity, first seen on its own connection
+			id, secret := y.ClientID, y.Secret
+			if cs.CloseY {
+				y.CloseByPeer()
+			}
+			x := w.n.NewClient("") // the connection that will activate: starts as another client P
+			cs.PriorID = x.ClientID
+			t0 := time.Now()
+			switch cs.Reauth {
+			case "list":
+				w.command(x, packet.ConnectionCodeList, "{}", "", "")
+			case "generate":
+				w.command(x, packet.ConnectionCodeGenerate, `{"target_address":"tcp://10.78.0.1:80","activation_ttl":600,"mapping_ttl":3600}`, "", "")
+			case "activate-unknown-code":
+				w.command(x, packet.ConnectionCodeActivate, `{"code":"zzz-zzz-zzz","listen_address":"127.0.0.1:18000"}`, "", "")
+			}
+			if dt := time.Since(t0); dt > time.Second {
+				run.Count("handler_slow_prior_commands", 1)
+				run.Observe("slow_prior_command", cs.Reauth+": "+w.lastErr)
+			}
+			okLogin, _ := x.Login(id, secret, "")
+			kc := w.n.SM.GetControlConnection(x.ConnID)
+			if !okLogin || kc == nil || !kc.IsAuthenticated() || kc.GetClientID() != id {
+				// the server did not accept the re-authentication: nothing to judge
+				run.Count("handler_reauth_not_accepted", 1)
+				continue
+			}
+			run.Count("handler_reauth_histories", 1)
+			actor, actorID, victimID = x, id, cs.PriorID
+		}
+		act, ok := w.command(actor, packet.ConnectionCodeActivate, string(bj), sender, recv)
 		if !ok {
 			run.Count("watchdog", 1)
 			continue
 		}
 		run.Eval(1)
 		run.Distinct(cs.Class)
-		mains, victimIdx := w.audit(target, w.V.ClientID)
+		mains, victimIdx := w.audit(target, victimID)
 		detail := func(reason string) map[string]any {
 			var ms []string
 			for _, m := range mains {
 				ms = append(ms, fmt.Sprintf("%s listen_client=%d target_client=%d target=%s", m.ID, m.ListenClientID, m.TargetClientID, m.TargetAddress))
 			}
-			return map[string]any{"case": cs, "activate_body": string(bj), "authenticated_activator": w.A.ClientID, "victim": w.V.ClientID, "target_client": w.T.ClientID,
+			return map[string]any{"case": cs, "activate_body": string(bj), "authenticated_activator": actorID, "victim": victimID, "target_client": w.T.ClientID,
 				"code_target_address": target, "response_success": act.Success, "response_error": act.Error, "mapping_records": ms, "victim_index": victimIdx, "reason": reason}
 		}
 		field := cs.Class
@@ -229,8 +275,8 @@ func TestVerifC06Handler(t *testing.T) {
 			run.Violation("C06:handler|failed-activation-left|main-record", detail("activation was refused but a mapping for the code exists"))
 		}
 		for _, m := range mains {
-			if m.ListenClientID != w.A.ClientID {
-				run.Violation("C06:handler|listens-for-other-client|field="+field, detail(fmt.Sprintf("mapping %s listens for client %d, the client authenticated on the activating connection is %d", m.ID, m.ListenClientID, w.A.ClientID)))
+			if m.ListenClientID != actorID {
+				run.Violation("C06:handler|listens-for-other-client|field="+field, detail(fmt.Sprintf("mapping %s listens for client %d, the client authenticated on the activating connection is %d", m.ID, m.ListenClientID, actorID)))
 			}
 			if m.TargetClientID != w.T.ClientID || m.TargetAddress != target {
 				run.Violation("C06:handler|wrong-target|field="+field, detail("mapping does not target the client/address fixed at generation"))
@@ -260,6 +306,7 @@ func TestVerifC06Handler(t *testing.T) {
 		}
 	}
 	run.Floor("handler_activations_ok", 60)
+	run.Floor("handler_reauth_histories", 8)
 	run.Floor("handler_reuse_attempts", 60)
 	if run.Counter("watchdog") > 0 {
 		run.Floor("watchdog_free", 1)
